@@ -123,6 +123,11 @@ def after(prop, tier, seed):
         extra_sources.append(ctsan.after(prop, tier, seed))
     except ImportError:
         pass
+    try:
+        import csan
+        extra_sources.append(csan.after(prop, tier, seed))
+    except ImportError:
+        pass
     for fz in extra_sources:
         for k, val in fz.items():
             if k == "coverage":
@@ -166,6 +171,13 @@ def replay(prop, path):
     try:
         import ctsan
         r = ctsan.replay(prop, path)
+        if r is not None:
+            return r
+    except ImportError:
+        pass
+    try:
+        import csan
+        r = csan.replay(prop, path)
         if r is not None:
             return r
     except ImportError:
